@@ -131,7 +131,8 @@ claim("C18",
       "strum's Dialect::from_str is an uninterpreted partial function (the name table itself is derive output); HashMap lookup of the header "
       "and translate_query are external; the resolver-independence clause is argued, not checked.")
 
-prop("C14", ["prql_prec", "fmt_strings", "fmt_interp", "fmt_names", "interp_ident", "fmt_width", "lex_strings", "fmt_entry"],
+prop("C14", ["prql_prec", "fmt_strings", "fmt_interp", "fmt_names", "interp_ident", "fmt_width", "lex_strings", "fmt_entry", "literals"],
+     select={"literals": lambda n: n.split(".", 1)[1] in ("LN1", "LN2", "LN3", "number_literal_slice.safety")},
      not_covered="line breaking (SeparatedExprs), idempotence, the other arms of ExprKind::write (unary / range / call "
                  "operands inherit binary_position: the rows quantify over every inherited value), string escaping beyond the delimiter length")
 claim("C14",
@@ -141,7 +142,7 @@ claim("C14",
       "(parent position, child kind), for every inherited position / flag / outer context: no parentheses ==> the PRQL grammar re-attaches the child "
       "to the same parent (FP1.*; the grammar's Pratt table is extracted from parser/expr.rs and is itself checked against the documented table, "
       "PP1.*); identifiers are written bare only if they are not lexer keywords, in both ident writers (WI1/2, DI1/2, FP2.*, FP3.*); the string "
-      "delimiter run is odd and longer than any quote run (QS2). the text printed inside a string literal (escape_all_except_quotes, loop proof) is one piece per character, each of which the lexer decodes to that character (fmt_strings EQ1); quote_string (whole function) prints `q^n s q^n` with n odd only when s neither starts nor ends with q and has no run of n q's, and otherwise escapes the double quotes - so the lexer reads the literal back as s (QS3). the text written for a string part of an s- / f-string - four single-character replacements, backslash first - contains no bare quote and no single brace, and undoing the lexer's escapes and then the interpolation parser's brace doubling gives back the part, for all strings (fmt_interp WI1-3; the theory of chained str::replace and of the two decoders is proved by induction in 12 lemmas). what the formatter prints is read back by the lexer character for character: an unescaped string opened by n quotes is the text up to the first run of n quotes VERBATIM - a raw CR LF included (lex_strings MQ1-2, ES1-4: the lexer side of the round trip). pl_to_prql hands the code generator's text out unchanged (fmt_entry FE1). NOT proved: line breaking, idempotence, whole-AST round trip.",
+      "delimiter run is odd and longer than any quote run (QS2). the text printed inside a string literal (escape_all_except_quotes, loop proof) is one piece per character, each of which the lexer decodes to that character (fmt_strings EQ1); quote_string (whole function) prints `q^n s q^n` with n odd only when s neither starts nor ends with q and has no run of n q's, and otherwise escapes the double quotes - so the lexer reads the literal back as s (QS3). the text written for a string part of an s- / f-string - four single-character replacements, backslash first - contains no bare quote and no single brace, and undoing the lexer's escapes and then the interpolation parser's brace doubling gives back the part, for all strings (fmt_interp WI1-3; the theory of chained str::replace and of the two decoders is proved by induction in 12 lemmas). what the formatter prints is read back by the lexer character for character: an unescaped string opened by n quotes is the text up to the first run of n quotes VERBATIM - a raw CR LF included (lex_strings MQ1-2, ES1-4: the lexer side of the round trip). pl_to_prql hands the code generator's text out unchanged (fmt_entry FE1). a number the formatter prints as digits only is read back by the lexer as the integer it denotes when it fits i64 and as the float otherwise - `1e20` is printed as a run of digits and relies on exactly that (literals LN1-3: the lexer's number slice). NOT proved: line breaking, idempotence, whole-AST round trip.",
       "pr::Expr::write's use of needs_parenthesis and the non-binary arms' option handling are read off the text, not verified; chumsky's pratt() "
       "semantics assumed; regex / HashSet / Formatter / String operations are shims by contract.")
 
